@@ -66,7 +66,7 @@ func ConvertProtoHeaderToMetadata(
 				vals[i] = string(data)
 			}
 		}
-		asMetadata[key] = vals
+		asMetadata[key] = append(asMetadata[key], vals...)
 	}
 	return asMetadata
 }
